@@ -202,7 +202,7 @@ theorem step_below {cl : CodeLaws ops} {s s' : St H} {d : FDesc} {K : List FDesc
     cases hs0
     have e2 := loadOperand_ok hlo
     subst e1; subst e2
-    have hnb : notBpOffset (ops.fetch s.heap s.ipL (s.ipO + 1 + 1)) = true := by rw [ai.fetch]; exact c1
+    have hnb : dstOk (ops.fetch s.heap s.ipL (s.ipO + 1 + 1)) = true := by rw [ai.fetch]; exact c1
     obtain ⟨q1, _⟩ := storeOperand_ok (cl := cl) (s := { s with ipO := s.ipO + 1 + 1 }) ai.hw.inv hso hnb
     intro i _; rw [q1]
   | movImm =>
@@ -213,7 +213,7 @@ theorem step_below {cl : CodeLaws ops} {s s' : St H} {d : FDesc} {K : List FDesc
     cases hs0
     obtain ⟨_, e2⟩ := ai.operand 1 e1 hro
     subst e2
-    have hnb : notBpOffset (ops.fetch s.heap s.ipL (s.ipO + 1 + 1)) = true := by rw [ai.fetch]; exact c1
+    have hnb : dstOk (ops.fetch s.heap s.ipL (s.ipO + 1 + 1)) = true := by rw [ai.fetch]; exact c1
     obtain ⟨q1, _⟩ := storeOperand_ok (cl := cl) (s := { s with ipO := s.ipO + 1 + 1 }) ai.hw.inv hso hnb
     intro i _; rw [q1]
   | enter =>
